@@ -205,7 +205,7 @@ class C08(Property):
         'the theorem side is that both characterise the same unique state (scalar_root_is_equilibrium_and_unique + C07 lin/log_zero_iff)',
         'precipitation clause on real runs (5 salts, all chains): oracle only; precipitate_dichotomy assumes small = 0 in the off-branch '
         '(NumSysLin; for NumSysLog/Square an absent solid is represented by small = exp(-36) resp. 1e-35) and single-salt systems',
-        'pre/post-processors, internal_x0_cb and float rounding of the NumSys formulations; stage i of a chain uses formulation i '
+        'pre/post-processors and float rounding of the NumSys formulations (internal_x0_cb of NumSysLin now has a model op lin_x0 and the theorem lin_internal_x0_spec; those of Log/Square are constants / sqrt|c0|); stage i of a chain uses formulation i '
         '(structural "stages" oracle, no theorem); rref_equil / rref_preserv variants',
         'histories on one EqSystem object (solve, change rxn.param in place, solve again: every result judged against the CURRENT constants) '
         'and the varied entry points solve(init, varied) / roots on real runs: oracle only (kinds history, grid); the grid construction itself '
@@ -213,8 +213,8 @@ class C08(Property):
         'warm starts on real runs (x0 = solution / initial state of another composition, array or dict; root and _solve): oracle kind warm; that the '
         'parameter vector is init_concs ++ constants whatever x0 is: correspondence op root_args (stand-in solver capturing the real call) tied to the '
         'model function rootArgs, about which warm_start_keeps_initial_totals is a theorem',
-        'reduction configurations rref_equil x rref_preserv (sympy row reduction via pyneqsys; fractional exponents for non-unit pivot coefficients): C07 now has '
-        'rref_zero_iff_lin/log/square, but C08 does not compose with them (zero_residual_and_sane_is_genuine covers rref=False, Lin and Log only); covered by solver runs on the pivot family (dimerisations, 2:1 / 3:2 / 2:2 complexes, pivot species first) '
+        'reduction configurations rref_equil x rref_preserv (sympy row reduction via pyneqsys; fractional exponents for non-unit pivot coefficients): the exact-zero composition with C07 is '
+        'zero_residual_and_sane_is_genuine_cfg (row-equivalence of the reduced blocks, i.e. what sympy returned, is a hypothesis there); on real runs covered by solver runs on the pivot family (dimerisations, 2:1 / 3:2 / 2:2 complexes, pivot species first) '
         'under every configuration and chain with the genuineness oracle, and by the structural stages oracle comparing the residual the solver sees with '
         'an independent evaluation of the row-reduced equations (exact rational exponents)',
         'EqCalcResult.solve / _solve bookkeeping (recorded success, sane, conc, nfev equal those of the underlying _solve; a failed root finding is '
@@ -222,12 +222,12 @@ class C08(Property):
         'plot arguments): oracle kinds calc / roots_plot, no model (driver plumbing around pyneqsys / matplotlib)',
         'precipitation x reduction configuration x under-/super-saturated starts on real runs: oracle only (family saltrref); on the pinned tree NumSysLin + '
         'rref_equil with a switched-off solid yields a NaN residual reported as success (open finding nan-residual-reported-as-success)',
-        'the epsilon-version of zero_residual_and_sane_is_genuine (|residual| <= eps => |Q/K - 1| <= eps, totals within eps), which would tie the oracle tolerances '
-        'to a theorem, is NOT proved: the exact-zero hypothesis is met by no real run (review 2-F top-1, left undone); hon/hoff of precipitate_dichotomy are '
-        'assumptions, not derived from the C07 residual rows (review 2-F top-2, left undone)',
+        'hon/hoff of precipitate_dichotomy are assumptions, not derived from the C07 residual rows (the two system models are not bridged), and its off-branch '
+        'assumes small = 0 (review 2-F top-2, not done); the epsilon-theorems (small_residual_and_sane_is_approximately_genuine, lin/log_residual_within_iff) '
+        'cover homogeneous systems with rref=False: what stays outside is that a run reporting success really ends with |f| <= tol (pyneqsys/scipy), and the '
+        'epsilon-version under the reduction configurations',
         '_result_is_sane on non-finite entries: NaN passes both tests (theorem sane_accepts_nan_defect_witness, correspondence op sane_nan); sane => non-negative '
         'therefore holds only for NaN-free results; fw_cond/bw_cond ignore the parameter vector p and read rxn.param (correspondence passes a junk p)',
-        'the default tolerances rtol=1e-9 / 1e-14 are model constants tied to the source by correspondence buckets (sane:default-*, fw:default-*), not extracted',
     )
     anchors = (
         ('chempy/equilibria.py', 'EqSystem._result_is_sane'),
@@ -364,7 +364,7 @@ class C08(Property):
         n_solver = max(60, n // 5)
         n_craft = n - n_solver
         ops = ['ucb', 'sane', 'sane', 'sane', 'precip_stoich', 'dissolved', 'dissolved', 'fw', 'fw', 'bw', 'ptidx', 'nonprecip',
-               'quotient', 'rc_interval', 'rc_interval', 'bracket', 'residual', 'net_stoich', 'varied', 'varied', 'root_args', 'quotient_rows', 'residual_act', 'residual_multi', 'sane_nan', 'dissolved_int']
+               'quotient', 'rc_interval', 'rc_interval', 'bracket', 'residual', 'net_stoich', 'varied', 'varied', 'root_args', 'quotient_rows', 'residual_act', 'residual_multi', 'sane_nan', 'dissolved_int', 'lin_x0']
         for i in range(n_craft):
             cases.append(self._gen_crafted(rng, ops[i % len(ops)]))
         cases.extend(self._gen_solver(rng, n_solver))
@@ -500,6 +500,10 @@ class C08(Property):
             for j in rng.sample(range(len(x)), rng.randint(1, len(x))):
                 x[j] = None
             base.update(op='sane_nan', x=x, mode='nan:' + base['mode'])
+            return base
+        if op == 'lin_x0':             # NumSysLin.internal_x0_cb: (99*c0 + dissolved(c0))/100
+            base = self._gen_crafted(rng, 'dissolved')
+            base['op'] = 'lin_x0'
             return base
         if op == 'dissolved_int':      # integer numpy array: the in-place update cannot be cast back
             phases, rxns = self._gen_system(rng)
@@ -1003,6 +1007,10 @@ class C08(Property):
                     kw = {'rtol': float(_fr(c['rtol']))} if 'rtol' in c else {}
                     x = np.array([float('nan') if v is None else float(_fr(v)) for v in c['x']])
                     return str(bool(es._result_is_sane(np.array([float(v) for v in _frl(c['init'])]), x, **kw)))
+                if op == 'lin_x0':
+                    from chempy.equilibria import NumSysLin
+                    es = self._build(c['phases'], c['rxns'])
+                    return show_rat_list(NumSysLin(es).internal_x0_cb(obj(c['c']), None))
                 if op == 'dissolved_int':
                     es = self._build(c['phases'], c['rxns'])
                     try:
@@ -1217,6 +1225,24 @@ class C08(Property):
                 return 'lower end %s of the bracket is not the largest feasible one' % lo
             if any(s < 0 for s in stoich) and all(a + s * (up + F(1, 10 ** 6)) >= 0 for a, s in zip(c0, stoich)):
                 return 'upper end %s of the bracket is not the largest feasible one' % up
+        elif op == 'lin_x0':
+            phases, rxns, x = c['phases'], c['rxns'], _frl(c['c'])
+            want = self._dissolve_indep(phases, rxns, x)
+            if want is None:
+                return None
+            from chempy.equilibria import NumSysLin
+            try:
+                got = [F(v) for v in NumSysLin(self._build(phases, rxns)).internal_x0_cb(obj(x), None)]
+            except ZeroDivisionError:
+                return None
+            if got != [(99 * a + d) / 100 for a, d in zip(x, want)]:
+                return 'NumSysLin.internal_x0_cb = %s, expected (99*c0 + dissolved)/100' % [str(v) for v in got]
+            if c.get('comps'):      # balanced: the starting point carries the totals of c0
+                for key in sorted({k for comp in c['comps'] for k, _ in comp}):
+                    t0 = sum(F(dict(map(tuple, comp)).get(key, 0)) * v for comp, v in zip(c['comps'], x))
+                    t1 = sum(F(dict(map(tuple, comp)).get(key, 0)) * v for comp, v in zip(c['comps'], got))
+                    if t0 != t1:
+                        return 'internal_x0_cb changes the total of component %d from %s to %s' % (key, t0, t1)
         elif op == 'sane_nan':
             comps, init = c['comps'], _frl(c['init'])
             if len(c['x']) != len(init) or any(v == 0 for comp in comps for k, v in comp if k != 0):
@@ -1810,8 +1836,8 @@ class C08(Property):
             op = c['op']
             if op in ('sane', 'fw', 'sane_nan'):
                 return '%s:%s' % (op, c.get('mode', 'corpus'))
-            if op == 'dissolved':
-                return 'dissolved:' + ('balanced-salts' if c.get('balanced') else 'random')
+            if op in ('dissolved', 'lin_x0'):
+                return op + ':' + ('balanced-salts' if c.get('balanced') else 'random')
             return op
         k = c.get('kind')
         if k in ('homog', 'salt', 'single'):
